@@ -16,7 +16,7 @@ EXTRACT = ["C10"]
 BINS = ["c10"]
 NEEDS_CICADA = True
 ALLOWED_AXIOMS = []
-PINNED = ["C10_scan", "C10_full", "C10_refuted", "C10_partial", "C10_line", "C10_single_quoted", "C10_do_expansion_inert",
+PINNED = ["C10_scan", "C10_full", "C10_refuted", "C10_partial", "C10_line", "C10_index_buffer", "C10_single_quoted", "C10_do_expansion_inert",
           "C10_values_not_rescanned"]
 TRUSTED = [
     "Coq 8.16.1 kernel (coqc; coqchk in thorough); vm_compute only in concrete witnesses / non-vacuity examples",
@@ -281,6 +281,51 @@ def run(ctx, res):
     mid = len(cases) // 2
     res.sample({"layer": "L1", "input": cases[mid][0], "env": ENVS[cases[mid][1]], "model": m1[mid],
                 "impl": i1.get(mid), "reference": refs[mid][0]})
+    # ------------------------------------------------------------ L1l: whole token LISTS (index buffer + write-back)
+    # every order of 2..3 tokens (sampled 4..5) over tags x texts: a quoted / skipped token in front of an expanded
+    # one must not shift the write-back.  Oracle per token, positions preserved.
+    ltexts = ["$A", "x", "p${AB}q", "$B$A", "~", "a{b,c}"]
+    ltags = ["", '"', "'", "`", "\\"]
+    kinds = [(tg, tx) for tg in ltags for tx in ltexts[:4]]
+    lists = [list(t) for n in (2, 3) for t in itertools.product(kinds, repeat=n)
+             if n == 2 or rng.random() < (0.5 if ctx.thorough else 0.12)]
+    for _ in range(4000 if ctx.thorough else 800):
+        lists.append([(rng.choice(ltags), rng.choice(ltexts[:4])) for _ in range(rng.randint(4, 5))])
+    lenv = ({"A": "va"}, {"B": "$A", "AB": "w w"})
+    lw = world_field(lenv, 0)
+    ll = [C.case("env", lw, str(FUEL), X.toks_field(t)) for t in lists]
+    # do_expansion on lists without backquote-tagged tokens (those would be run as commands)
+    dlists = [[("", "echo")] + [(tg, tx) for tg, tx in t] for t in lists if all(tg != "`" for tg, _ in t)]
+    dlists = [t for t in dlists if rng.random() < 0.5]
+    ll += [C.case("dx", lw + "\x1eH\x1d/home/u", "8", X.toks_field(t)) for t in dlists]
+    pl = C.write_cases("c10_l1l.txt", ll)
+    ml = C.run_model(ctx.model["C10"], pl)
+    il = C.run_impl(ctx.bins["c10"], pl, len(ll), timeout=900, env={"HX_CASE_TIMEOUT_MS": "1500"})
+    res.count("L1l_token_lists", len(ll))
+
+    def tok_oracle(tg, tx):
+        if tg in ("'", "`"):
+            return tx
+        return ref_subst(tx, lenv, 0, MODEL_PID)[0]
+
+    for k, (t, a, b) in enumerate(zip(lists + dlists, ml, il)):
+        pid, b = split_pid(b)
+        a = a.split(" calls=")[0]
+        if pid:
+            a = a.replace(MODEL_PID, pid)
+        got = [(C.dec(x), C.dec(y)) for x, y in re.findall(r'\("([^"]*)","([^"]*)"\)', b or "")]
+        want = [(tg, tok_oracle(tg, tx).replace(MODEL_PID, pid or "")) for tg, tx in t]
+        # the backslash tag is C01's subject: there only model == implementation is demanded
+        ok = len(got) == len(want) and all(g == w or w[0] == "\\" for g, w in zip(got, want))
+        res.nontrivial("l1l:%r" % (t,))
+        if not ok:
+            violate(kind="oracle", layer="L1l", op="expand_env" if k < len(lists) else "do_expansion", input=repr(t),
+                    env={"env": lenv[0], "shell": lenv[1]}, expected=repr(want), observed=repr(got), model=a,
+                    failing_input=True,
+                    note="in a token list every token must be expanded (or left alone) in its own place")
+        elif a != b:
+            violate(kind="correspondence", layer="L1l", input=repr(t), model=a, impl=b, failing_input=False,
+                    note="expand_env / do_expansion on a token list differs from the model")
     # ------------------------------------------------------------ recorded findings, replayed at L1 and L2
     # the one recorded class, and the six classes repaired by e586def as regression cases (fixed:<name>):
     # for those the oracle must hold, nothing is tolerated
@@ -347,6 +392,30 @@ def run(ctx, res):
         with ThreadPoolExecutor(max_workers=C.NCPU) as ex:
             outs = list(ex.map(one, enumerate(l2)))
         res.count("L2_cicada_argv", len(l2))
+        # several arguments with different quoting on one line (write-back positions)
+        q2 = {"": "%s", '"': '"%s"', "'": "'%s'"}
+        l2l = [t for t in lists if all(tg in q2 for tg, _ in t) and all(tx != "~" for _, tx in t)]
+        l2l = rng.sample(l2l, min(len(l2l), 120 if ctx.thorough else 40))
+
+        def one_l(t):
+            d = tempfile.mkdtemp(prefix="l2l_", dir=work)
+            env = {"PATH": "/usr/bin:/bin", "HOME": d, "XDG_CONFIG_HOME": d, "A": "va"}
+            line = "B='$A'; AB='w w'; %s @o %s" % (hp, " ".join(q2[tg] % tx for tg, tx in t))
+            try:
+                p = subprocess.run([ctx.cicada, "-c", line], cwd=d, env=env, stdin=subprocess.DEVNULL,
+                                   stdout=subprocess.PIPE, stderr=subprocess.PIPE, timeout=10)
+                return line, p.stdout.decode("utf-8", "replace")
+            except subprocess.TimeoutExpired:
+                return line, "HANG"
+
+        with ThreadPoolExecutor(max_workers=C.NCPU) as ex:
+            outs_l = list(ex.map(one_l, l2l))
+        res.count("L2_cicada_argv_lists", len(l2l))
+        for t, (line, out) in zip(l2l, outs_l):
+            want = "".join(tok_oracle(tg, tx) + "\n" for tg, tx in t)
+            if out != want:
+                violate(kind="oracle", layer="L2", input=line, expected=want, observed=out, failing_input=True,
+                        note="argv of the helper: each argument must be expanded (or left alone) in its own place")
         for (w, ei, tg), (line, out) in zip(l2, outs):
             env2 = (ENVS[ei][0], {k: v for k, v in ENVS[ei][1].items() if k not in ENVS[ei][0]})
             exp, pieces, flags = ref_subst(w, env2, 0, "PID")
